@@ -478,6 +478,8 @@ def _get_Hamiltonian_from_couplings(model, sparse: bool, undo_sort_charge: bool)
         return op
 
     for s, terms in zip(term_list.strength, term_list.terms):
+        # the centered exponentially decaying terms are not ordered by sites (only allowed for bosonic operators)
+        terms = sorted(terms, key=lambda op_i: op_i[1])
         last_site = -1
         t = eye_0
         # The TermList does not store the operator strings: between the operators of a term we need a
